@@ -88,6 +88,17 @@ def sh(cmd, cwd=None, timeout=None, env=None):
     return p.returncode, p.stdout.decode("utf-8", "replace")
 
 
+def prop_modules(pid):
+    """the Lean modules holding the theorems of property `pid`: Props/<pid>.lean plus Props/<pid><Suffix>.lean
+    (e.g. C04Final, C19Tables0); all declare into namespace Cvss.Props.<pid>"""
+    d = os.path.join(LEAN, "Cvss", "Props")
+    mods = []
+    for fn in sorted(os.listdir(d)):
+        if fn.endswith(".lean") and fn.startswith(pid) and (len(fn) == len(pid) + 5 or not fn[len(pid)].isdigit()):
+            mods.append("Cvss.Props." + fn[:-5])
+    return mods or ["Cvss.Props." + pid]
+
+
 def translate_and_build(pid, log):
     """step 0/1: regenerate Gen from /repo, rebuild the property's module and the driver."""
     res = {"translator_ok": True, "build_ok": True, "driver_ok": True, "errors": [], "changed": []}
@@ -110,7 +121,7 @@ def translate_and_build(pid, log):
         if rc != 0:
             res["driver_ok"] = False
             res["errors"].append("driver build failed:\n" + _errors_of(out))
-        rc, out = sh(["lake", "build", "Cvss.Props.%s" % pid], cwd=LEAN, timeout=6000)
+        rc, out = sh(["lake", "build"] + prop_modules(pid), cwd=LEAN, timeout=6000)
         log.append("[lake build %.1fs rc=%d]" % (time.time() - t0, rc))
         if rc != 0:
             res["build_ok"] = False
@@ -127,7 +138,7 @@ def _errors_of(out):
     return "\n".join(keep[:60]) if keep else out[-1500:]
 
 
-AUDIT_TMPL = """import Cvss.Props.%(pid)s
+AUDIT_TMPL = """%(imports)s
 import Lean
 open Lean Elab Command in
 #eval show CommandElabM Unit from do
@@ -148,7 +159,7 @@ def audit(pid, log):
     """step 2: every theorem in namespace Cvss.Props.<pid> and the axioms it depends on."""
     path = os.path.join(VERIF, "scratch", "Audit_%s_%d.lean" % (pid, os.getpid()))
     with open(path, "w") as f:
-        f.write(AUDIT_TMPL % {"pid": pid})
+        f.write(AUDIT_TMPL % {"pid": pid, "imports": "\n".join("import " + m for m in prop_modules(pid))})
     try:
         rc, out = sh(["lake", "env", "lean", path], cwd=LEAN, timeout=1800)
     finally:
